@@ -8,6 +8,8 @@ thread of the real server run under the deterministic scheduler with small
 watermarks; their executions are validated step by step against the model and
 TLC judges the observable traces with the monitor clauses P12_* (+ wire
 integrity P04_*) of spec/Pipeline.tla."""
+import errno
+
 from checks import chan_common as cc
 from checks import chan_model
 
@@ -58,6 +60,12 @@ def scenarios(thorough):
         out.append(cc.mk([P(1)], room=10, extra_client=[["read_after_block", 2, 5]], drains=False,
                          faults={"send": [None] * nth + [errno.EHOSTUNREACH] * 6}, apps={1: {"chunks": [40, 40, 40, 40, 40], "cl": "none"}},
                          adj={"outbuf_high_watermark": 30}, name="producer above the mark, send#%d.. fail EHOSTUNREACH" % (nth + 1)))
+    # the producer's own flush fails (after a partial send) and what is left is below send_bytes and the mark: the
+    # connection is condemned all the same and the producer released
+    for e in (errno.EHOSTUNREACH, errno.ETIMEDOUT):
+        out.append(cc.mk([P(1)], room=60, extra_client=[], drains=False, faults={"send": [None, e]},
+                         apps={1: {"chunks": [40, 40], "cl": "none"}}, adj={"outbuf_high_watermark": 100, "send_bytes": 300},
+                         name="send_bytes=300 hwm=100, the producer's flush sends 60 bytes then fails %s" % errno.errorcode[e]))
     out.append(cc.mk([P(1), P(2)], lookahead=1, workers=2, room=20, extra_client=[["read", 40], ["readall"]],
                      apps={1: {"chunks": [40, 40]}, 2: {"chunks": [40]}}, adj={"outbuf_high_watermark": 30}, name="two pipelined producers hwm=30"))
     out.append(cc.mk([P(1)], room=0, extra_client=[["readall_after_block", 1]], apps={1: {"chunks": [200, 200], "write": True, "cl": "none"}},
